@@ -48,7 +48,7 @@ structure RootOK (fs : FS) (root : List Name) : Prop where
   ne : root ≠ []
   comps_valid : ∀ c ∈ root, validName c = true
   above : ∀ k, 0 < k → k < root.length → ∃ a m, fs.get (root.take k) = some (.dir a m)
-  not_link : ∀ t a, fs.get root ≠ some (.symlink t a)
+  not_link : ∀ t a m, fs.get root ≠ some (.symlink t a m)
 
 theorem confined_iff_rep {d : Bytes} : Confined d ↔ ∃ cs, Rep d cs := by
   constructor
@@ -428,7 +428,7 @@ def aSrv : Attr := { owner := some (3, 3), mode := some 0o2775, xattrs := [([117
 /-- the destination /srv/dest exists and holds a hostile link /srv/dest/link -> /outside -/
 def fsA : FS :=
   [([nOutside], .dir aOutside (some 2)), ([nSrv], .dir aSrv (some 4)), ([nSrv, nDest], .dir {} none),
-   ([nSrv, nDest, nLink], .symlink tOutside {})]
+   ([nSrv, nDest, nLink], .symlink tOutside {} none)]
 
 /-- the destination /srv/dest does not exist yet -/
 def fsB : FS := [([nOutside], .dir aOutside (some 2)), ([nSrv], .dir aSrv (some 4))]
@@ -452,7 +452,7 @@ def archive : Bytes :=
 def opts : Opts := ⟨false, false⟩
 
 theorem rootOK_of (fs : FS) (h1 : fs.get [nSrv] = some (.dir aSrv (some 4)))
-    (h2 : ∀ t a, fs.get root ≠ some (.symlink t a)) : RootOK fs root where
+    (h2 : ∀ t a m, fs.get root ≠ some (.symlink t a m)) : RootOK fs root where
   ne := by decide
   comps_valid := by decide
   above := by
@@ -464,14 +464,14 @@ theorem rootOK_of (fs : FS) (h1 : fs.get [nSrv] = some (.dir aSrv (some 4)))
 
 theorem rootOK_A : RootOK fsA root := by
   refine rootOK_of fsA (by decide) ?_
-  intro t a h
+  intro t a lm h
   have : fsA.get root = some (.dir {} none) := by decide
   rw [this] at h
   cases h
 
 theorem rootOK_B : RootOK fsB root := by
   refine rootOK_of fsB (by decide) ?_
-  intro t a h
+  intro t a lm h
   have : fsB.get root = none := by decide
   rw [this] at h
   cases h
@@ -487,7 +487,7 @@ example :
     (untarFS opts root fsA archive).2 = true ∧
     (untarFS opts root fsA archive).1.get [nSrv, nDest, nLink] = some (.file [97, 98, 99] aFile (some 5)) ∧
     (untarFS opts root fsA archive).1.get [nSrv, nDest, nSub] = some (.dir aDir (some 7)) ∧
-    (untarFS opts root fsA archive).1.get [nSrv, nDest, nSub, [120]] = some (.symlink tOutside aLink) ∧
+    (untarFS opts root fsA archive).1.get [nSrv, nDest, nSub, [120]] = some (.symlink tOutside aLink (some 5)) ∧
     (untarFS opts root fsA archive).1.get [nOutside] = fsA.get [nOutside] ∧
     (untarFS opts root fsA archive).1.get [nSrv] = fsA.get [nSrv] := by
   decide +kernel
